@@ -343,7 +343,7 @@ def _selftest_traces(traces: list[dict]) -> list[dict]:
     return out
 
 
-def stage(ctx, sources: list[str], owner: str):
+def stage(ctx, sources: list[str], owner: str, extra_traces=()):
     """Validate recorded converter traces; report rejections whose clause belongs to property `owner`."""
     corpus, info = collect_corpus(torchlib=True)
     for i, t in enumerate(corpus):
@@ -354,7 +354,7 @@ def stage(ctx, sources: list[str], owner: str):
     gen = collect_generated(sources)
     if len(corpus) < 100 or len(tests) < 50:
         raise core.MachineryError(f"too few recorded traces (corpus {len(corpus)}, tests {len(tests)}: {tail}); are the hooks in converter.py present?")
-    allt = corpus + tests + gen
+    allt = corpus + tests + gen + list(extra_traces)
     self_t = _selftest_traces(allt)
     verdicts = validate(ctx, allt + self_t, owner)
     for t in self_t:
@@ -380,9 +380,148 @@ def stage(ctx, sources: list[str], owner: str):
                    f"event: {json.dumps(ev)[:400]}\n{t['meta']['source'][:1500]}")
     ctx.add("traces_validated_against_impl", len(allt))
     ctx.set("converter_traces", {"corpus": len(corpus), "repository_tests": len(tests), "repository_tests_result": re.sub(r"\x1b\[[0-9;]*m", "", tail),
-                                 "generated_programs": len(gen), "events": sum(len(t["events"]) for t in allt),
+                                 "generated_programs": len(gen), "hand_written_programs": len(extra_traces), "events": sum(len(t["events"]) for t in allt),
                                  "if_loop_selections_judged": n_sel,
                                  "refused_prefixes": sum(1 for t in allt if verdicts[t["id"]][1] == "refused_prefix_consistent"),
                                  "rejected_with_clause_of_other_property": other,
                                  "selftest_corruptions_rejected": {t["id"]: verdicts[t["id"]][1] for t in self_t},
                                  "corpus_modules_failed_to_import": info.get("failed", [])})
+
+
+# ------------------------------------------------------------------------------------------------
+# hand-written programs outside Script.tla's grammar (harness/extra_programs.py)
+# ------------------------------------------------------------------------------------------------
+def _call_model(fn, feeds, attrs, eager_outs):
+    """A model whose graph is one call of fn's FunctionProto (attribute values as node attributes)."""
+    import numpy as np
+    import onnx
+    from onnx import helper
+
+    fp = fn.to_function_proto()
+    mp_funcs = []
+    try:
+        mp_funcs = list(fn.to_model_proto().functions)
+    except Exception:
+        pass
+    kw = {k: (int(v) if isinstance(v, (bool, np.bool_)) else v) for k, v in attrs.items()}
+    node = helper.make_node(fp.name, list(fp.input), [f"o{i}" for i in range(len(fp.output))], domain=fp.domain, **kw)
+    g = helper.make_graph(
+        [node], "caller",
+        [helper.make_tensor_value_info(i, helper.np_dtype_to_tensor_dtype(feeds[i].dtype), list(feeds[i].shape)) for i in fp.input],
+        [helper.make_tensor_value_info(f"o{i}", helper.np_dtype_to_tensor_dtype(eager_outs[i].dtype), None) for i in range(len(fp.output))],
+    )
+    ops = {(o.domain, o.version) for o in fp.opset_import} | {(fp.domain, 1)}
+    funcs = [fp] + [f for f in mp_funcs if not (f.name == fp.name and f.domain == fp.domain)]
+    for f in funcs:
+        ops |= {(o.domain, o.version) for o in f.opset_import} | {(f.domain, 1)}
+    m = helper.make_model(g, opset_imports=[helper.make_opsetid(d, v) for d, v in sorted(ops)], functions=funcs)
+    m.ir_version = 10
+    return m
+
+
+def _extra_worker(arg):
+    name, src = arg
+    import numpy as np
+    from onnxscript._internal import _verif
+
+    from . import scriptgen
+
+    out = {"name": name, "accepted": False, "err": None, "runs": [], "trace": None}
+    del _verif.traces[:]
+    try:
+        mod = scriptgen.load_source(src, "xp")
+    except Exception as e:
+        _verif.abort_all()
+        out["err"] = f"{type(e).__name__}: {str(e)[:400]}"
+    ts = [t for t in _verif.traces if t["kind"] == "converter" and t["meta"]["fn"] == "f"]
+    del _verif.traces[:]
+    out["trace"] = ts[-1] if ts else None
+    if out["err"]:
+        return out
+    out["accepted"] = True
+    f = mod.f
+    attr_names = {a.name for a in f.function_ir.attrs}
+    sess = None
+    if not attr_names:
+        try:
+            sess = core.ort_session(f.to_model_proto())
+        except Exception as e:
+            out["err"] = f"model: {type(e).__name__}: {str(e)[:400]}"
+            return out
+    for inp in mod.INPUTS:
+        rec = {"input": {k: np.asarray(v).tolist() for k, v in inp.items()}}
+        eager = None
+        try:
+            e = f(**inp)
+            e = list(e) if isinstance(e, (tuple, list)) else [e]
+            eager = [np.asarray(getattr(x, "value", x)) for x in e]
+            rec["eager"] = [x.tolist() for x in eager]
+        except Exception as ex:
+            rec["eager_err"] = f"{type(ex).__name__}: {str(ex)[:300]}"
+        feeds = {k: np.asarray(v) for k, v in inp.items() if k not in attr_names}
+        attrs = {k: v for k, v in inp.items() if k in attr_names}
+        graphs = {}
+        if sess is not None:   # to_model_proto() of a function with attribute parameters is documented as unsupported
+            try:
+                graphs["model"] = [np.asarray(x) for x in sess.run(None, feeds)]
+            except Exception as ex:
+                graphs["model"] = f"{type(ex).__name__}: {str(ex)[:300]}"
+        if eager is not None:
+            try:
+                cm = _call_model(f, feeds, attrs, eager)
+                graphs["call"] = [np.asarray(x) for x in core.ort_session(cm).run(None, feeds)]
+            except Exception as ex:
+                graphs["call"] = f"{type(ex).__name__}: {str(ex)[:300]}"
+        rec["agree"] = {}
+        for mode, g in graphs.items():
+            if isinstance(g, str):
+                rec[mode + "_err"] = g
+                continue
+            rec[mode] = [x.tolist() for x in g]
+            if eager is not None:
+                rec["agree"][mode] = len(eager) == len(g) and all(
+                    a.dtype == b.dtype and a.shape == b.shape and core.same_array(a, b, exact=a.dtype.kind in "iub") for a, b in zip(eager, g))
+        out["runs"].append(rec)
+    return out
+
+
+def run_extra(ctx):
+    """Returns (results, traces).  Reports C01 violations (eager != graph) itself."""
+    from . import extra_programs
+
+    srcs = extra_programs.sources()
+    res = core.pmap_safe(_extra_worker, sorted(srcs.items()), timeout=120)
+    traces = []
+    for (name, src), r in zip(sorted(srcs.items()), res):
+        ctx.add("extra_programs")
+        if not isinstance(r, dict):
+            ctx.report({"program": name, "src": src}, f"extra program {name}: worker did not finish: {r}")
+            continue
+        if r.get("trace"):
+            r["trace"]["id"] = f"extra/{name}"
+            traces.append(r["trace"])
+        if not r["accepted"]:
+            # every program here is inside the documented subset: a refusal is not a wrong graph, but it is unexpected
+            print(f"SPEC-MISMATCH C01 extra program {name} refused: {r['err']}")
+            ctx.add("extra_programs_refused")
+            continue
+        if r["err"]:
+            ctx.report({"program": name, "src": src, "err": r["err"]}, f"extra program {name}: accepted but the model cannot be built/loaded: {r['err']}\n{src}")
+            continue
+        for rec in r["runs"]:
+            ctx.add("evaluations")
+            if "eager_err" in rec:
+                # eager mode itself refuses (e.g. returns a Python int): nothing to compare with
+                ctx.add("extra_eager_errors")
+                print(f"NOTE C01 extra program {name}: eager call raised {rec['eager_err']} on {rec['input']}")
+                continue
+            for mode in ("model", "call"):
+                if mode + "_err" in rec:
+                    if mode == "call":
+                        ctx.add("extra_call_mode_not_runnable")   # onnxruntime cannot always type-check function bodies with subgraphs
+                        continue
+                    ctx.report({"program": name, "src": src, "run": rec}, f"extra program {name}: eager returns {rec['eager']} but the {mode} fails on onnxruntime: {rec[mode + '_err']} on {rec['input']}\n{src}")
+                elif mode in rec["agree"] and not rec["agree"][mode]:
+                    ctx.report({"program": name, "src": src, "run": rec, "mode": mode},
+                               f"extra program {name}: eager {rec['eager']} != {mode} on onnxruntime {rec[mode]} on {rec['input']}\n{src}")
+    return res, traces
